@@ -5,9 +5,9 @@ C10 line protocol (one request per line, reply `ok [left] [right]` | `ok paramet
   minmax a b | minmean m mu | maxmean M mu | mmm a b mu | median a b med | mode a b M
   meanstd mu sigma [tL×199] [tR×199]
   meanvar mu v s [tL] [tR]
-  mmms a b mu sigma smax [t1×201] [t2×201] [s5×201]
-  mmmv a b mu v s smax [t1] [t2] [s5]
-  kp maximum mean median minimum mode std var family(0|1) s smax [tL] [tR] [t1] [t2] [s5]   ("-" = None)
+  mmms a b mu sigma smax slack [t1×201] [t2×201] [s5×201]
+  mmmv a b mu v s smax slack [t1] [t2] [s5]
+  kp maximum mean median minimum mode std var family(0|1) s smax slack [tL] [tR] [t1] [t2] [s5]   ("-" = None)
 
 The lists carry the square roots computed by numpy/Python for the same call (see Model/Free).
 -/
@@ -25,8 +25,10 @@ def tab (n : Nat) (s : String) : Option (Nat → Rat) := do
 def optRat (s : String) : Option (Option Rat) :=
   if s = "-" then some none else (parseRat s).map some
 
-def roots (smax t1 t2 s5 : String) : Option Roots := do
-  some { smax := ← parseRat smax, t1 := ← tab 201 t1, t2 := ← tab 201 t2, s5 := ← tab 201 s5 }
+def roots (smax slack t1 t2 s5 : String) : Option Roots := do
+  let sk ← parseRat slack
+  if sk < 0 then none else
+  some { smax := ← parseRat smax, t1 := ← tab 201 t1, t2 := ← tab 201 t2, s5 := ← tab 201 s5, slack := sk }
 
 def handle : List String → String
   | ["minmax", a, b] =>
@@ -61,18 +63,18 @@ def handle : List String → String
     match parseRat mu, parseRat v, parseRat s, tab 199 tL, tab 199 tR with
     | some mu, some v, some s, some tL, some tR => showRes (meanVar tL tR mu v s)
     | _, _, _, _, _ => "bad-op"
-  | ["mmms", a, b, mu, sg, smax, t1, t2, s5] =>
-    match parseRat a, parseRat b, parseRat mu, parseRat sg, roots smax t1 t2 s5 with
+  | ["mmms", a, b, mu, sg, smax, slack, t1, t2, s5] =>
+    match parseRat a, parseRat b, parseRat mu, parseRat sg, roots smax slack t1 t2 s5 with
     | some a, some b, some mu, some sg, some R => showRes (minMaxMeanStd R a b mu sg)
     | _, _, _, _, _ => "bad-op"
-  | ["mmmv", a, b, mu, v, s, smax, t1, t2, s5] =>
-    match parseRat a, parseRat b, parseRat mu, parseRat v, parseRat s, roots smax t1 t2 s5 with
+  | ["mmmv", a, b, mu, v, s, smax, slack, t1, t2, s5] =>
+    match parseRat a, parseRat b, parseRat mu, parseRat v, parseRat s, roots smax slack t1 t2 s5 with
     | some a, some b, some mu, some v, some s, some R => showRes (minMaxMeanVar R a b mu v s)
     | _, _, _, _, _, _ => "bad-op"
-  | ["kp", mx, me, md, mn, mo, sd, vr, fam, s, smax, tL, tR, t1, t2, s5] =>
+  | ["kp", mx, me, md, mn, mo, sd, vr, fam, s, smax, slack, tL, tR, t1, t2, s5] =>
     match optRat mx, optRat me, optRat md, optRat mn, optRat mo, optRat sd, optRat vr with
     | some mx, some me, some md, some mn, some mo, some sd, some vr =>
-      match parseRat s, roots smax t1 t2 s5, tab 199 tL, tab 199 tR with
+      match parseRat s, roots smax slack t1 t2 s5, tab 199 tL, tab 199 tR with
       | some s, some R, some tL, some tR =>
         if fam ≠ "0" ∧ fam ≠ "1" then "bad-op" else
         let A : Args := { maximum := mx, mean := me, median := md, minimum := mn, mode := mo,
